@@ -125,20 +125,30 @@ func main() {
 			}
 			out, err := exec.Command(os.Args[0], id, "--replay", tmp.Name()).CombinedOutput()
 			ee, isExit := err.(*exec.ExitError)
-			if !isExit || ee.ExitCode() != 1 || !strings.Contains(string(out), "replay: ["+v.Clause+"]") {
-				return false, fmt.Sprintf("err=%v\n%s", err, out)
+			if isExit && ee.ExitCode() == 1 {
+				if strings.Contains(string(out), "replay: ["+v.Clause+"]") {
+					return true, ""
+				}
+				if chk.SameFinding != nil {
+					if i := strings.Index(string(out), "replay: ["); i >= 0 {
+						rest := string(out)[i+len("replay: ["):]
+						if j := strings.Index(rest, "]"); j >= 0 && chk.SameFinding(v.Clause, rest[:j]) {
+							return true, ""
+						}
+					}
+				}
 			}
-			return true, ""
+			return false, fmt.Sprintf("err=%v\n%s", err, out)
 		}
 		same := func(path []string) (bool, string) {
 			if chk.FreshProcessReplay {
 				return fresh(path)
 			}
 			_, rv, err := chk.Replay(kind, path)
-			if err != nil || rv == nil || rv.Clause != v.Clause {
-				return false, fmt.Sprintf("err=%v got=%v", err, rv)
+			if err == nil && rv != nil && (rv.Clause == v.Clause || (chk.SameFinding != nil && chk.SameFinding(v.Clause, rv.Clause))) {
+				return true, ""
 			}
-			return true, ""
+			return false, fmt.Sprintf("err=%v got=%v", err, rv)
 		}
 		for i := 0; i < 2; i++ {
 			ok, why := same(v.Path)
